@@ -7,6 +7,17 @@ import (
 // the 16-token alphabet of the exhaustive sweep (DESIGN.md §3 C10); -u is not defined
 var alphabet = [16]string{"-b", "-b=false", "-n", "-n=5", "--n=x", "5", "x", "-", "--", "---n", "-=", "--=v", "-s=a=b", "-u", "-s", "-help"}
 
+// the 16-token alphabet of the second, shorter sweep: the long-named flags (64-, 65-, 200- and
+// 63-byte names) in every spelling, two near-misses of them, and 7 tokens of the first alphabet
+var alphabet2 = [16]string{
+	"-" + nameLB, "--" + nameLB + "=false",
+	"-" + nameLN + "=5", "--" + nameLN, "-" + nameLN + "=x",
+	"-" + nameLS + "=a=b", "--" + nameLS,
+	"--" + nameLU + "=7",
+	"-" + nameLN[:64] + "=5", // undefined: the 65-byte name cut to 64 bytes
+	"-b", "-n=5", "5", "x", "--", "-u", "-s",
+}
+
 // -config forms inserted into the shorter vectors of the sweep
 var configForms = [][]string{
 	{"-config=@VALID@"},
@@ -20,6 +31,23 @@ var configForms = [][]string{
 // running number idx belongs to part idx % Parts.
 func runExhaustive(rn *runner, a shardArgs) {
 	idx := 0
+	// second sweep first (it is the smaller one)
+	for L := 1; L <= a.MaxLen2; L++ {
+		total := 1 << (4 * L)
+		vec := make([]string, L)
+		for code := 0; code < total; code++ {
+			idx++
+			if idx%a.Parts != a.Part {
+				continue
+			}
+			for p, c := 0, code; p < L; p, c = p+1, c>>4 {
+				vec[L-1-p] = alphabet2[c&15]
+			}
+			if !rn.exec(vec) {
+				return
+			}
+		}
+	}
 	for L := 0; L <= a.MaxLen; L++ {
 		total := 1 << (4 * L)
 		vec := make([]string, L)
@@ -80,10 +108,12 @@ var badValues = [...][]string{
 
 var tricky = []string{"-b", "--", "-", "-n=5", "a=b", "=", "==", " ", "a b", "ü", "\x00", "\xff", "-help", "x", "5", "-5", "", "-s", "--s=", "-config", "@VALID@", "~", "~/x", ".", "/", "..", "-1", "true", "false"}
 
-var nearMisses = []string{"-", "--", "---", "---x", "---n", "---n=5", "----", "-=", "-=v", "--=", "--=v", "-x=", "-n=", "-b=", "--b=", "-help=", "--config=", "-s=", "-by=",
+var nearMisses = []string{"-" + nameLN + "=", "--" + nameLS + "=", "-" + nameLB + "=", "---" + nameLN + "=5", "-" + nameLN + "==5", "-" + nameLN + " =5", "--" + nameLS + "=" + nameLS + "=" + nameLS, "-=" + nameLN, nameLN + "=5",
+	"-", "--", "---", "---x", "---n", "---n=5", "----", "-=", "-=v", "--=", "--=v", "-x=", "-n=", "-b=", "--b=", "-help=", "--config=", "-s=", "-by=",
 	"- n", " -n", "-n ", "-N", "-B", "-Help", "-nn", "-n5", "-b5", "-bn", "-b-", "-n-", "-n==5", "-s==", "--s==a", "-n =5", "-n= 5", "=", "=n", "n=5", "-\x00", "--\x00=1", "-n\x00=5", "-ｎ=5", "—n=5", "-.", "-=-", "--=-", "---=", "-b=false=", "-b=true=false"}
 
-var unknownFlags = []string{"-u", "--u", "-u=1", "-x", "-x=1", "--unknown", "-bb", "-hel", "-helpp", "-conf", "-i6", "-i644", "-u6", "-B", "-S=a", "-n.", "-b,", "-cfg_n=1", "-CFG_N=1", "-N=5"}
+var unknownFlags = []string{"-" + nameLN[:64], "--" + nameLN[:64] + "=5", "-" + nameLN + "x", "-" + nameLN + "x=5", "-" + nameLB[:63], "--" + nameLB + "0=true", "-" + nameLS[:199] + "=a", "-" + nameLS + "3=a",
+	"-" + nameLU + "0=1", "-" + nameLU[:62] + "=1", "-" + nameLS[:64] + "=a", "-" + nameLS[:65] + "=a", "-" + nameLS[:63], "-u", "--u", "-u=1", "-x", "-x=1", "--unknown", "-bb", "-hel", "-helpp", "-conf", "-i6", "-i644", "-u6", "-B", "-S=a", "-n.", "-b,", "-cfg_n=1", "-CFG_N=1", "-N=5"}
 
 var plainValues = []string{"5", "x", "-5", "arg", "a=b", "=x", "0", "true", "false", "", " ", "@VALID@", "b", "n", "help"}
 
@@ -188,7 +218,7 @@ func randVector(r *rand.Rand) []string {
 			v = append(v, flagTokens(r, used[r.Intn(len(used))], pBad)...)
 		case x < 20:
 			// boolean flag followed by a stray value
-			fi := []int{fB, fHelp}[r.Intn(2)]
+			fi := []int{fB, fHelp, fLB}[r.Intn(3)]
 			used = append(used, fi)
 			v = append(v, []string{"-", "--"}[r.Intn(2)]+flagNames[fi], pick(r, []string{"false", "true", "0", "x", "5", "-", ""}))
 		case x < 30:
